@@ -65,6 +65,7 @@ func producerLemmaAfter(idx int, p string, eventsMayFail bool, before int) {
 		verifrt.Assume(verifrt.LowerEq(h.LimitDenom, h.LimitDenom))
 	}
 	h.Env.EventsMayFail(eventsMayFail)
+	h.Env.FTF.MayPanic, h.Env.Bank.MayPanic = p == "C14", p == "C14" // failing by error or by panic
 	h.Env.BeginTx()
 	ok, panicked, m := h.callUser(idx, c)
 	ctx := h.Env.Ctx
@@ -196,6 +197,9 @@ func producerLemmaAfter(idx int, p string, eventsMayFail bool, before int) {
 		}
 		exp := refEncodeMsg(0, 4, m.Domain, m.Nonce, sender, recipient, caller, body)
 		if p == "C06" {
+			// "exactly the requested" fields: a request whose recipient, mint recipient or caller does
+			// not fill its 32-byte slot cannot be carried by the layout, so it is never accepted
+			verifrt.Assert("C06/producer/requested-fields-fit-the-layout", verifrt.All(len(m.Recipient) == 32, verifrt.Implies(withCaller, len(m.Caller) == 32)))
 			verifrt.Assert("C06/producer/message-bytes", bytes.Equal(sent.Message, exp))
 			verifrt.Assert("C06/producer/nonce-is-response-nonce", verifrt.RefU64(verifrt.SubBytes(sent.Message, 12, 8), 0) == m.Nonce)
 			if isDeposit {
